@@ -21,22 +21,28 @@ LEVEL = "exploration"
 T = "aarch64-linux-gnu"
 
 
-CLASSES = ["small-functions", "small-functions", "large-functions", "mixed-alignment"]
+CLASSES = ["small-functions", "one-large-straddler", "large-functions", "mixed-alignment"]
 
 
 def gen(ctx, r, ci, pie, cls):
     """cls: small-functions (<= 2 MiB per function, one alignment class: the shape wild's thunk design
     targets), large-functions (5-15 MiB per function), mixed-alignment (functions of several alignment
-    classes, each class holding > 128 MiB in total)."""
+    classes, each class holding > 128 MiB in total), one-large-straddler (1 MiB functions and a single
+    3.25-3.75 MiB function with call sites at both of its ends, placed so that it straddles the point
+    where the first thunk block stops being reachable)."""
     total_mib = r.choice([200, 220]) if ctx.quick else r.choice([136, 200, 300, 520])
     if cls == "small-functions":
         per = r.choice([1, 2]) << 20
+    elif cls == "one-large-straddler":
+        per = 1 << 20
+        total_mib = r.choice([290, 300])
     elif cls == "large-functions":
         per = r.choice([5, 8, 13]) << 20
     else:
         per = r.choice([1, 2]) << 20
         total_mib = max(total_mib, 280)
     n = total_mib * (1 << 20) // per
+    big_at, big_size = (126, r.choice([13, 14, 15]) << 18) if cls == "one-large-straddler" else (None, 0)
     sites = []   # (marker, target, kind)
     ext = [f"ext{ci}_{k}" for k in range(3)] if pie else []
     srcs = []
@@ -68,7 +74,15 @@ def gen(ctx, r, ci, pie, cls):
         s.append(f'.globl near{ci}_{i}\n.type near{ci}_{i},%function\nnear{ci}_{i}: ret\n')
         # the filler lives in the function's own section: wild groups sections by alignment class, so
         # separate filler sections would not separate the functions
-        s.append(f'.globl fill{ci}_{i}\nfill{ci}_{i}:\n    .space {per - 64}\n')
+        s.append(f'.globl fill{ci}_{i}\nfill{ci}_{i}:\n    .space {(big_size if i == big_at else per) - 64}\n')
+        if i == big_at:
+            # call sites at the far end of the large function too
+            s.append(f".globl tail{ci}_{i}\n.type tail{ci}_{i},%function\ntail{ci}_{i}:\n")
+            for t in (0, n - 1, 1, n // 2):
+                m = f"cs{ci}_{i}_e{t}"
+                s.append(f".globl {m}\n{m}: bl f{ci}_{t}\n")
+                sites.append((m, f"f{ci}_{t}", "bl"))
+            s.append("    ret\n")
         if i == 0:
             s.append(f'.section .text.start,"ax",@progbits\n.p2align 2\n.globl _start\n_start: bl f{ci}_0\n    ret\n')
         srcs.append("".join(s))
